@@ -464,6 +464,8 @@ def c02_7(rep, ix, M, R="C02.7"):
         kinds = ("%s.STR()" % p, "%s.BOOL()" % p, "%s.STR() is not None" % p, "%s.BOOL() is not None" % p)
         lead = []
         for c_, v_ in conds:
+            if c_.startswith("not ") and not c_.startswith("not (") :
+                c_, v_ = c_[4:], not v_          # the failing edge of a guard clause `if not X: raise` is the true edge of X
             lead.append((c_, v_))
             if v_:
                 break
